@@ -12,7 +12,7 @@ LEVEL_TEXT = ("Static structural proof of necessary conditions: (R19.1) the port
               "the same function; (R19.3) functions that write into the cache are reachable only from inside a "
               "`with CacheLock(...)` body; (R19.4) no `except A or B` handler. Mutual exclusion and crash "
               "consistency as properties of executions, timeouts and refresh intervals are NOT decided.")
-LEVEL_EXTRA = 'Added after the seeded evaluation: (R19.2) the temporary name cannot equal the final name (callers pass a temporary file); (R19.5) the lock file is never removed or renamed; (R19.6) a lock body that fetches from the network keeps write_time on. (R19.7) looking up a version that is missing from the cache folder (re)runs the local population. (R19.8) only time-recording holders are refused inside the refresh interval; (R19.9) the last-refresh time is read while the lock is held. (R19.10) the lock path is a path join under the folder; (R19.11) an existing cached file is returned only under a comparison with its computed hash. (R19.12) the version-file pattern is anchored at its end wherever it is applied with match/search.'
+LEVEL_EXTRA = 'Added after the seeded evaluation: (R19.2) the temporary name cannot equal the final name (callers pass a temporary file); (R19.5) the lock file is never removed or renamed; (R19.6) a lock body that fetches from the network keeps write_time on. (R19.7) looking up a version that is missing from the cache folder (re)runs the local population. (R19.8) only time-recording holders are refused inside the refresh interval; (R19.9) the last-refresh time is read while the lock is held. (R19.10) the lock path is a path join under the folder; (R19.11) an existing cached file is returned only under a comparison with its computed hash. (R19.12) the version-file pattern is anchored at its end wherever it is applied with match/search. (R19.13) the lock waits up to its timeout (no fail_when_locked).'
 
 MODULES = ["hed.schema.hed_cache", "hed.schema.hed_cache_lock"]
 HANDLER_MODULES = MODULES + ["hed.schema.hed_schema_io", "hed.schema.schema_io.schema_util"]
@@ -441,3 +441,22 @@ def run(ctx):
                           "population (`HED8.3.0.xml.<pid>.tmp`) counts as version 8.3.0, so the version is believed cached and the "
                           "load fails with fileNotFound" % (c.func.value.id, c.func.attr), desc="%s: version pattern anchored at the end" % f.short)
     ctx.floor("R19.12", "uses of the version-file pattern", n_pat19, 2)
+
+    # ---------------- R19.13: a second holder waits for the lock (up to the timeout) instead of failing at once
+    ctx.rule("R19.13", "the lock is constructed without fail_when_locked=True")
+    n1913 = 0
+    for f in prog.functions.values():
+        if f.module.name != "hed.schema.hed_cache_lock":
+            continue
+        for c in walk_no_nested(f.node):
+            if isinstance(c, ast.Call) and norm(c.func).endswith("portalocker.Lock"):
+                n1913 += 1
+                ctx.saw(f)
+                fw = [kw.value for kw in c.keywords if kw.arg == "fail_when_locked"]
+                to = [kw.value for kw in c.keywords if kw.arg == "timeout"]
+                ok = not (fw and isinstance(fw[0], ast.Constant) and fw[0].value is True) and \
+                    not (to and isinstance(to[0], ast.Constant) and to[0].value in (0, None))
+                ctx.check(ok, "R19.13", f.qualname, c, loc(f, c),
+                          "the lock fails at once when another process holds it (no retry up to the timeout): a load that coincides with "
+                          "another process populating the cache raises fileNotFound instead of waiting", desc="lock waits up to its timeout")
+    ctx.floor("R19.13", "lock constructions", n1913, 1)
